@@ -462,10 +462,16 @@ impl<'a> ShardCtx<'a> {
             CaseResult::Timeout => {
                 if !shrinking {
                     self.stats.timeouts += 1;
+                    // keep the whole case: `./check <ID> --replay <file>` re-runs it
+                    let dir = verif_root().join("replays");
+                    let _ = std::fs::create_dir_all(&dir);
+                    let file = dir.join(format!("{}-timeout-{}.json", self.worker.prop_id, std::process::id()));
+                    let _ = std::fs::write(&file, serde_json::to_string_pretty(&json!({"property": self.worker.prop_id, "origin": "watchdog", "case": case_to_json(case)})).unwrap_or_default());
                     self.stats.infra.push(format!(
-                        "watchdog expired after {:?} on case {}",
+                        "watchdog expired after {:?} on the case kept in {} ({}..)",
                         self.worker.timeout,
-                        serde_json::to_string(&case_to_json(case)).unwrap_or_default().chars().take(400).collect::<String>()
+                        file.display(),
+                        serde_json::to_string(&case_to_json(case)).unwrap_or_default().chars().take(120).collect::<String>()
                     ));
                     self.aborted = true;
                 }
